@@ -811,6 +811,12 @@ theorem uinv_step (F : Bytes) (u : Ul) (op : UOp) (h : UInv F u) : UInv F (ustep
       · exact he
       · simp [he] at hc
     · exact h
+  | rerr =>
+    simp only [ustep]; split
+    · rename_i hs
+      exact ⟨h.fs, fun _ => h.pos (by simp [hs]), fun _ => h.bt (by simp [hs]), h.sent,
+             (fun hc => by cases hc), (fun hc => by cases hc), h.chunk⟩
+    · exact h
 
 theorem uinv_run (F : Bytes) (ops : List UOp) : ∀ u, UInv F u → UInv F (urun F u ops) := by
   induction ops with
